@@ -42,7 +42,38 @@ func cliTree(c *Ctx) *tables.Tree {
 	if sp == nil {
 		return nil
 	}
-	return tables.CobraTree(sp, c.P.RepoFuncs())
+	t := tables.CobraTree(sp, c.P.RepoFuncs())
+	if t == nil {
+		return nil
+	}
+	// a Run closure that only hands (cmd, args) to a function of the package
+	// (and reports the error it returns): that function is the command's body
+	for _, cmd := range t.Cmds {
+		if cmd.Run == nil || len(cmd.Run.Params) < 2 {
+			continue
+		}
+		var body *ssa.Function
+		n := 0
+		ssau.ForEachInstr(cmd.Run, false, func(in ssa.Instruction) {
+			call, ok := in.(*ssa.Call)
+			if !ok {
+				return
+			}
+			g := call.Common().StaticCallee()
+			if g == nil || g.Blocks == nil || !c.P.IsRepoFunc(g) || g.Pkg != cmd.Run.Pkg {
+				return
+			}
+			a := call.Common().Args
+			if len(a) == 2 && len(g.Params) == 2 && (a[0] == ssa.Value(cmd.Run.Params[0]) || ssau.ParamOf(a[0]) == cmd.Run.Params[0]) && (a[1] == ssa.Value(cmd.Run.Params[1]) || ssau.ParamOf(a[1]) == cmd.Run.Params[1]) {
+				body = g
+				n++
+			}
+		})
+		if n == 1 && body != nil && len(cmd.Run.Blocks) <= 4 {
+			cmd.Run = body
+		}
+	}
+	return t
 }
 
 // flagTableRules is shared by C08 O-1 and C17 O-1. only restricts the
@@ -535,6 +566,25 @@ func c17History(c *Ctx, run *ssa.Function) {
 			// results held in an SSA value (no cell): len(engine result)
 			okCnt = true
 		}
+		if phi, isPhi := of.(*ssa.Phi); isPhi && cell == nil {
+			// the result variable after the recovery merge: one of its sources is
+			// the engine result, and it is the merge that dominates the recording
+			var walk func(v ssa.Value, d int) bool
+			walk = func(v ssa.Value, d int) bool {
+				if v == ssa.Value(engine) {
+					return true
+				}
+				if p, ok := v.(*ssa.Phi); ok && d < 4 {
+					for _, e := range p.Edges {
+						if walk(e, d+1) {
+							return true
+						}
+					}
+				}
+				return false
+			}
+			okCnt = walk(phi, 0)
+		}
 	}
 	r.Check(okCnt, "O-5", fk+"#AddEntry-count", c.P.Pos(add.Pos()), "records len(results)", "the recorded result count is not len() of the result list")
 	if cell != nil {
@@ -632,11 +682,28 @@ func c17Output(c *Ctx, run *ssa.Function) {
 		return
 	}
 	cell := resultsCellOf(engine)
+	// without a variable cell the result list is the engine's value and the
+	// merges it flows into (results = recovered list on the no-result path)
+	listVals := map[ssa.Value]bool{engine: true}
 	if cell == nil {
-		r.Unknown("O-2", fk+"#results-cell", c.P.Pos(engine.Pos()), "engine result is not held in a local variable cell; print-loop rules not applicable to this shape")
-		return
+		for changed := true; changed; {
+			changed = false
+			ssau.ForEachInstr(run, false, func(in ssa.Instruction) {
+				if phi, ok := in.(*ssa.Phi); ok && !listVals[phi] {
+					for _, e := range phi.Edges {
+						if listVals[e] {
+							listVals[phi] = true
+							changed = true
+						}
+					}
+				}
+			})
+		}
 	}
 	isCellLoad := func(v ssa.Value) bool {
+		if cell == nil {
+			return listVals[v]
+		}
 		u, ok := v.(*ssa.UnOp)
 		return ok && u.Op == token.MUL && u.X == cell
 	}
@@ -848,8 +915,19 @@ func c17Output(c *Ctx, run *ssa.Function) {
 	// helper itself prints nothing else
 	cd := ssau.ControlDeps(run)
 	anchor := em.call.Block()
+	regionFn := run
 	if em.rt.via != nil {
 		anchor = em.rt.via.Block()
+		// the routine may hold the whole format switch: then the json test and
+		// the json region are inside it
+		rcd := ssau.ControlDeps(em.rt.fn)
+		for _, d := range ssau.TransitiveControlDeps(rcd, em.call.Block()) {
+			if _, _, y, ok := ssau.CondOf(d.If().Cond); ok {
+				if s, isc := ssau.ConstString(y); isc && s == "json" {
+					cd, anchor, regionFn = rcd, em.call.Block(), em.rt.fn
+				}
+			}
+		}
 	}
 	encDeps := ssau.TransitiveControlDeps(cd, anchor)
 	var jsonIf *ssau.CtrlDep
@@ -867,7 +945,7 @@ func c17Output(c *Ctx, run *ssa.Function) {
 		return
 	}
 	bad := 0
-	for _, b := range run.Blocks {
+	for _, b := range regionFn.Blocks {
 		in := false
 		for _, d := range ssau.TransitiveControlDeps(cd, b) {
 			if d.Branch == jsonIf.Branch && d.Then == jsonIf.Then {
@@ -883,7 +961,7 @@ func c17Output(c *Ctx, run *ssa.Function) {
 			}
 		}
 	}
-	if em.rt.via != nil {
+	if em.rt.via != nil && regionFn == run {
 		ssau.ForEachInstr(em.rt.fn, true, func(ins ssa.Instruction) {
 			if call, ok := ins.(*ssa.Call); ok && isPrintCall(call) && call != em.out {
 				bad++
